@@ -27,7 +27,7 @@ RULE_TEXT = "R16.1: per model class; R16.2: per constructor name-argument and pe
 
 
 ALLOW = {
-    "Table(name)<-N1@SelectExtractor._handle_swap_partition": "the argument is a string literal holding an identifier: the first application removes the literal's quotes, "
+    "Table(name)<-N1@SelectExtractor.extract": "the argument is a string literal holding an identifier: the first application removes the literal's quotes, "
                                                               "the constructor's application then normalises the identifier inside (needed, not redundant)",
     "Table(name)<-N1@SwapPartitionHandler.handle": "same string-literal-holding-an-identifier case in the sqlparse handler",
 }
